@@ -7,6 +7,8 @@ import shapes as S
 import knotops as KO
 
 PID = 'C17'
+FLOAT_KINDS = {'knot-range', 'ders-config'}      # float-mode companion (core.float_companion)
+FLOAT_TOL = 1e-6
 STATS = G.STATS
 PARTIAL = [
     "process pools (multi.*Container.tessellate, voxelize with num_procs) are runtime behaviour: compared across num_procs in {1,2,4,8} by the harness in floating point; the Lean side only has 'an order preserving map is List.map'",
